@@ -71,6 +71,16 @@ func replayC44(t *testing.T, rec *ev.Rec, w json.RawMessage) {
 	if err := json.Unmarshal(w, &x); err != nil {
 		t.Fatalf("replay: %v", err)
 	}
+	var kf struct {
+		Kind    string `json:"kind"`
+		Class   string `json:"class"`
+		Content string `json:"content_hex"`
+	}
+	if json.Unmarshal(w, &kf) == nil && kf.Kind == "keyfile" {
+		b, _ := hex.DecodeString(kf.Content)
+		c44CheckKeyFile(t, rec, kf.Class, b, kf.Class == "json" || kf.Class == "raw48" || kf.Class == "json-trailing-newline")
+		return
+	}
 	if x.Base != nil && x.Probe != nil {
 		c44CheckHistory(t, rec, x.Base, []c44Probe{*x.Probe})
 		return
